@@ -1,4 +1,4 @@
-HOOK_COMMITS = ["119410b", "11f73ab"]
+HOOK_COMMITS = ["119410b", "11f73ab", "b9302de"]
 
 NOT_APPLICABLE = {}
 
